@@ -92,7 +92,7 @@ func (fr *frame) doCall(b *ssa.BasicBlock, st *state, ins ssa.Instruction, call 
 					ms.merge(s)
 				}
 			}
-			fr.opaque(b, st, ins, v, sig, ms, "invoke "+key, vc.w.inModule(pkgOfType(call.Value.Type())))
+			fr.opaque(b, st, ins, v, sig, ms, "invoke "+key, vc.w.inModule(pkgOfType(call.Value.Type())), args)
 			return
 		}
 		fr.applyContract(b, st, ins, v, ct, nil, args, argTypes, sig, label, call)
@@ -149,7 +149,7 @@ func (fr *frame) doCall(b *ssa.BasicBlock, st *state, ins ssa.Instruction, call 
 	if s, ok := vc.ma.sets[callee]; ok {
 		ms = s
 	}
-	fr.opaque(b, st, ins, v, sig, ms, "call "+label, inMod)
+	fr.opaque(b, st, ins, v, sig, ms, "call "+label, inMod, args)
 }
 
 func pkgOfType(t types.Type) string {
@@ -255,7 +255,7 @@ func (fr *frame) applyContract(b *ssa.BasicBlock, st *state, ins ssa.Instruction
 	}
 	pre := st.clone()
 	trPre := bind(pre, pre, nil)
-	for k, cl := range ct.Clauses {
+	for k, cl := range ct.clausesFor(vc.layer) {
 		if cl.Kind != "requires" {
 			continue
 		}
@@ -300,13 +300,13 @@ func (fr *frame) applyContract(b *ssa.BasicBlock, st *state, ins ssa.Instruction
 	default:
 		ms = newModset()
 	}
-	vc.havoc(st, pre, ms, "call "+label)
+	vc.havoc(st, pre, ms, "call "+label, argRoot(args))
 	results := fr.freshResults(v, st, sig, "c"+fmt.Sprint(len(vc.obls)))
 	for i, r := range results {
 		vc.typed(r, sig.Results().At(i).Type(), st)
 	}
 	trPost := bind(st, pre, results)
-	for _, cl := range ct.Clauses {
+	for _, cl := range ct.clausesFor(vc.layer) {
 		if cl.Kind != "ensures" {
 			continue
 		}
@@ -322,7 +322,7 @@ func (fr *frame) variantObl(b *ssa.BasicBlock, st *state, ins ssa.Instruction, c
 	vc := fr.vc
 	c := vc.c
 	var calleeDec *clause
-	for _, cl := range ct.Clauses {
+	for _, cl := range ct.clausesFor(vc.layer) {
 		if cl.Kind == "decreases" {
 			calleeDec = cl
 		}
@@ -337,7 +337,7 @@ func (fr *frame) variantObl(b *ssa.BasicBlock, st *state, ins ssa.Instruction, c
 	var own *clause
 	var ownCt *contract
 	for _, oc := range vc.allContracts() {
-		for _, cl := range oc.Clauses {
+		for _, cl := range oc.clausesFor(vc.layer) {
 			if cl.Kind == "decreases" {
 				own, ownCt = cl, oc
 			}
@@ -481,10 +481,10 @@ func (w *world) computeSCCs(ma *modAnalysis) {
 }
 
 // opaque: a call without contract that is not inlined.
-func (fr *frame) opaque(b *ssa.BasicBlock, st *state, ins ssa.Instruction, v ssa.Value, sig *types.Signature, ms *modset, what string, inModule bool) {
+func (fr *frame) opaque(b *ssa.BasicBlock, st *state, ins ssa.Instruction, v ssa.Value, sig *types.Signature, ms *modset, what string, inModule bool, args []string) {
 	vc := fr.vc
 	pre := st.clone()
-	vc.havoc(st, pre, ms, what)
+	vc.havoc(st, pre, ms, what, argRoot(args))
 	if inModule {
 		vc.assumed["uncontracted module "+what+": does not panic, result unconstrained"] = true
 		vc.opaqueModule = append(vc.opaqueModule, what)
@@ -653,5 +653,20 @@ func (fr *frame) doBuiltin(b *ssa.BasicBlock, st *state, ins ssa.Instruction, bi
 		if v != nil {
 			fr.havocVal(v, st)
 		}
+	}
+}
+
+// argRoot maps a callee parameter (a root of its mod-set summary) to the actual argument term.
+func argRoot(args []string) func(ssa.Value) (string, bool) {
+	return func(v ssa.Value) (string, bool) {
+		p, ok := v.(*ssa.Parameter)
+		if !ok {
+			return "", false
+		}
+		i := paramIndex(p)
+		if i < 0 || i >= len(args) {
+			return "", false
+		}
+		return args[i], true
 	}
 }
